@@ -384,6 +384,9 @@ pub mod verif {
 		/// separator slots holding an entry *after* the first empty slot (must be none)
 		pub stray_separators: usize,
 		pub children: Vec<(u64, Option<Box<NodeDump>>)>,
+		/// the raw entry bytes of the node as `BTreeTable::get_encoded_entry` returns them
+		/// (exactly what `Node::from_encoded` was given)
+		pub encoded: Vec<u8>,
 	}
 
 	#[derive(Debug, Clone)]
@@ -400,6 +403,7 @@ pub mod verif {
 		log: &impl LogQuery,
 		fuel: u32,
 	) -> Result<NodeDump> {
+		let encoded = BTreeTable::get_encoded_entry(Address::from_u64(address), log, tables)?;
 		let mut separators = Vec::new();
 		let mut stray = 0;
 		let mut ended = false;
@@ -422,7 +426,7 @@ pub mod verif {
 				None => children.push((0, None)),
 			}
 		}
-		Ok(NodeDump { address, separators, stray_separators: stray, children })
+		Ok(NodeDump { address, separators, stray_separators: stray, children, encoded })
 	}
 
 	impl BTreeTable {
@@ -439,6 +443,22 @@ pub mod verif {
 				Ok(TreeDump { root: header.root.as_u64(), depth: header.depth, root_node })
 			})
 		}
+	}
+
+	/// `Node::from_encoded` on arbitrary entry bytes: separators in slot order up to the first
+	/// empty slot and all `ORDER + 1` child slots (raw address, 0 = none).
+	pub fn node_codec(bytes: &[u8]) -> Result<(Vec<(Vec<u8>, u64)>, Vec<u64>)> {
+		let node = Node::from_encoded(bytes.to_vec())?;
+		let mut separators = Vec::new();
+		for s in node.separators.iter() {
+			match &s.separator {
+				Some(s) => separators.push((s.key.clone(), s.value.as_u64())),
+				None => break,
+			}
+		}
+		let children =
+			node.children.iter().map(|c| c.entry_index.map_or(0, |a| a.as_u64())).collect();
+		Ok((separators, children))
 	}
 
 	/// `Entry::write_separator` followed by `Entry::read_separator` on the produced bytes.
